@@ -5,6 +5,7 @@ import (
 	"context"
 	"fmt"
 	"math/rand/v2"
+	"runtime"
 	"sync/atomic"
 	"testing"
 	"testing/synctest"
@@ -36,13 +37,21 @@ type ctor struct {
 type flaky struct {
 	in     core.Limiter
 	refuse atomic.Bool
+	// onRefused, when armed, is called once after the inner limiter refused an attempt (a schedule point inside the
+	// wrapper's hand-off: "the delegate has just said no")
+	armed     atomic.Bool
+	onRefused func()
 }
 
 func (f *flaky) Acquire(ctx context.Context) (core.Listener, bool) {
 	if f.refuse.CompareAndSwap(true, false) {
 		return nil, false
 	}
-	return f.in.Acquire(ctx)
+	l, ok := f.in.Acquire(ctx)
+	if !ok && f.onRefused != nil && f.armed.CompareAndSwap(true, false) {
+		f.onRefused()
+	}
+	return l, ok
 }
 
 func inner(capacity int) core.Limiter {
@@ -249,6 +258,27 @@ func scenario(t *testing.T, idx int64, c ctor, r *rand.Rand) {
 						fail("waiter-returned-although-delegate-refused-the-hand-off", rt.J{"waiter": w.id, "ok": w.ok})
 						bad = true
 					}
+				}
+				// while the refused unit lies free at the delegate, a caller that is NOT next in order leaves (cancelled, eviction
+				// on): leaving is all it may do - the free unit is not its to take ahead of the callers still waiting
+				if c.Evict && len(waiting) >= 2 && r.IntN(2) == 0 {
+					k := r.IntN(len(waiting) - 1) // fifo: anyone but the oldest ...
+					if c.Order == "fifo" {
+						k++
+					} // ... lifo: anyone but the newest
+					w := waiting[k]
+					waiting = append(waiting[:k], waiting[k+1:]...)
+					w.gone = true
+					w.cancel()
+					synctest.Wait()
+					trace = append(trace, fmt.Sprintf("t=%v waiter %d (not next in order) cancelled while a unit lies free at the delegate", now(), w.id))
+					rt.Count("departures_while_a_unit_lies_free", 1)
+					if !w.done.Load() || w.ok {
+						fail("departing-caller-took-a-free-unit-ahead-of-the-callers-still-waiting", rt.J{"waiter": w.id, "returned": w.done.Load(), "ok": w.ok})
+						bad = true
+						continue
+					}
+					w.seen = true
 				}
 				h, ok := fl.in.Acquire(context.Background())
 				if !ok {
@@ -479,11 +509,104 @@ func scenario(t *testing.T, idx int64, c ctor, r *rand.Rand) {
 	}
 }
 
+// twoHolders: capacity 2, both units held, three callers queued (arrival order fixed by quiescence).  The first holder
+// completes; should the limiter, while serving the backlog for that release, ask the delegate once more and be
+// refused, the second holder completes at that very moment in another goroutine (otherwise right afterwards).  Two
+// units were released, so exactly the first two callers in the configured order hold them now, whatever the overlap.
+func twoHolders(t *testing.T, idx int64, c ctor, r *rand.Rand) {
+	if c.build == nil {
+		return
+	}
+	var trace []string
+	bubble(t, func(t *testing.T) {
+		fl := &flaky{in: inner(2)}
+		lim := c.build(fl)
+		h1, ok1 := lim.Acquire(context.Background())
+		h2, ok2 := lim.Acquire(context.Background())
+		if !ok1 || !ok2 {
+			panic("c11: two units refused")
+		}
+		var ws []*waiter
+		for i := 0; i < 3; i++ {
+			time.Sleep(time.Millisecond)
+			ctx, cancel := context.WithCancel(context.Background())
+			w := &waiter{id: i, cancel: cancel}
+			ws = append(ws, w)
+			go func() {
+				w.l, w.ok = lim.Acquire(ctx)
+				w.done.Store(true)
+			}()
+			synctest.Wait()
+		}
+		var second atomic.Bool
+		yields := []int{200, 2000}[r.IntN(2)]
+		fl.onRefused = func() {
+			done := make(chan struct{})
+			second.Store(true)
+			go func() { h2.OnSuccess(); close(done) }()
+			for i := 0; i < yields; i++ {
+				select {
+				case <-done:
+					return
+				default:
+					runtime.Gosched()
+				}
+			}
+		}
+		fl.armed.Store(true)
+		h1.OnSuccess()
+		synctest.Wait()
+		fl.armed.Store(false)
+		if second.Load() {
+			trace = append(trace, "second holder completed while the first release's hand-off was being refused")
+			rt.Count("two_holder_rounds_with_overlapping_second_release", 1)
+		} else {
+			h2.OnSuccess()
+			synctest.Wait()
+		}
+		rt.Count("two_holder_rounds", 1)
+		var got []int
+		for _, w := range ws {
+			if w.done.Load() && w.ok {
+				got = append(got, w.id)
+			}
+		}
+		want := []int{0, 1}
+		if c.Order == "lifo" {
+			want = []int{1, 2}
+		}
+		if fmt.Sprint(got) != fmt.Sprint(want) {
+			rt.Violation("C11/"+c.Name+"/two-released-units-not-held-by-the-first-two-callers-in-order", idx, rt.J{"constructor": c.Name, "documented_order": c.Order,
+				"granted_waiters(arrival ids)": got, "expected": want, "trace": trace})
+		}
+		for _, w := range ws {
+			w.cancel()
+		}
+		synctest.Wait()
+		time.Sleep(c.Timeout + time.Second)
+		synctest.Wait()
+		for round := 0; round < 5; round++ {
+			for _, w := range ws {
+				if w.done.Load() && w.ok && w.l != nil && !w.seen {
+					w.seen = true
+					w.l.OnIgnore()
+				}
+			}
+			synctest.Wait()
+		}
+	})
+	rt.Distinct(fmt.Sprintf("two|%s|%v", c.Name, trace))
+}
+
 func TestCheck(t *testing.T) {
 	cs := ctors()
 	rt.Cases(3000, 1500000, func(idx int64) {
 		r := rt.CaseRand(11, idx)
 		rt.Case()
+		if idx%20 == 19 {
+			twoHolders(t, idx, cs[int(idx/20)%len(cs)], r)
+			return
+		}
 		scenario(t, idx, cs[int(idx)%len(cs)], r)
 	})
 }
